@@ -171,26 +171,32 @@ func UpdatesOf(pus []result.PackageUpdate) []Update {
 	return out
 }
 
-// Apply returns the manifest with the updates applied, the way guided remediation defines
-// the effect of a patch: the requirement of the addressed entry becomes To; a Maven update
-// addressed to a dependencyManagement entry that does not exist adds that entry. An update
-// that addresses no entry of the manifest is an error.
+// Apply returns the manifest with the updates applied, the way guided remediation itself
+// defines the effect of a patch on a manifest (Manifest.PatchRequirement): npm — the
+// requirement of the addressed key becomes To; Maven — every entry of the package, in
+// <dependencies> and in <dependencyManagement>, gets the requirement To, and when the package
+// has no entry at all a <dependencyManagement> entry is added (override of a transitive
+// dependency). The dependency type of a reported Maven update is not used to pick the
+// entry: for a package listed in both sections the report carries one update whose type is
+// that of the dependencyManagement entry. An update that addresses nothing is an error.
 func (m Manifest) Apply(updates []Update) (Manifest, error) {
 	out := m.Clone()
 	for _, u := range updates {
 		found := false
 		if m.System == Maven {
-			list := out.Deps
-			if u.Management {
-				list = out.Management
-			}
-			for i := range list {
-				if list[i].Name == u.Name {
-					list[i].Req = u.To
+			for i := range out.Deps {
+				if out.Deps[i].Name == u.Name {
+					out.Deps[i].Req = u.To
 					found = true
 				}
 			}
-			if !found && u.Management {
+			for i := range out.Management {
+				if out.Management[i].Name == u.Name {
+					out.Management[i].Req = u.To
+					found = true
+				}
+			}
+			if !found {
 				out.Management = append(out.Management, Requirement{Name: u.Name, Req: u.To})
 				found = true
 			}
